@@ -209,6 +209,38 @@ class LazyModel(histmc.HistModel):
             shape = hashlib.sha1(repr([_fs(x) for x in shapes]).encode())
             put("shape", tname, shape.hexdigest())
         put("modules", sorted(m for m in sys.modules if m.startswith("periodictable.")))
+        # module-level state of the library (registries, memo dictionaries, "current table" holders): name, kind and
+        # size of every global that is not a function / class / module, one level into instances of library classes
+        tnames = dict((id(T), n) for n, T in core.PRIVATE_TABLES.items())
+        def gshape(v, depth=0):
+            if isinstance(v, core.PeriodicTable):
+                return "table:%s" % tnames.get(id(v), "?")
+            if isinstance(v, (core.Element, core.Isotope, core.Ion)):
+                return "atom"
+            if isinstance(v, (bool, int, float, complex, str, bytes, type(None))):
+                return "%s=%s" % (type(v).__name__, norm(v)[:40]) if depth == 0 or not isinstance(v, (str, bytes)) \
+                    else type(v).__name__
+            if isinstance(v, (dict, list, set, tuple, frozenset)):
+                return "%s/%d" % (type(v).__name__, len(v))
+            if isinstance(v, numpy.ndarray):
+                return "ndarray/%s" % (v.shape,)
+            mod = getattr(type(v), "__module__", "") or ""
+            if depth == 0 and mod.startswith("periodictable") and hasattr(v, "__dict__"):
+                return "%s{%s}" % (type(v).__name__, ",".join("%s:%s" % (k, gshape(x, 1)) for k, x in sorted(vars(v).items())))
+            return type(v).__name__
+        import types
+        for mname in sorted(m for m in sys.modules if m == "periodictable" or m.startswith("periodictable.")):
+            mod = sys.modules[mname]
+            if mod is None:
+                continue
+            for gname in sorted(vars(mod)):
+                v = vars(mod)[gname]
+                if gname.startswith("__") or isinstance(v, (types.ModuleType, types.FunctionType, types.BuiltinFunctionType, type)) \
+                        or callable(v) and not hasattr(v, "__dict__"):
+                    continue
+                if isinstance(v, (core.Element, core.Isotope, core.Ion)):
+                    continue        # the exported atoms of the public table
+                put("global", mname, gname, gshape(v))
         cm = sys.modules.get("periodictable.cromermann")
         put("cm-cache", bool(getattr(cm, "_cmformulas", None)) if cm else None)
         fm = sys.modules.get("periodictable.formulas")
@@ -221,6 +253,41 @@ class LazyModel(histmc.HistModel):
     def digest(self, ns, order):
         pt = ns["pt"]
         return tuple(digest_table(pt, pt.elements, order))
+
+
+PRIV_INIT = ("from periodictable import core as _c, mass as _ma, density as _de\n"
+             "_P = _c.PRIVATE_TABLES.get('P') or _c.PeriodicTable('P')\n"
+             "if 'mass' not in _P.properties: _ma.init(_P); _de.init(_P)\n"
+             "from periodictable import %s as _m\n_m.%s(_P)\n'done'")
+
+
+class PrivFirstModel(LazyModel):
+    """Sub-alphabet for one more means of first touch: the explicit init of a group on a PRIVATE table before the
+    public table was touched (the init functions assign class attributes that also carry the public table's lazy
+    loaders).  Histories start with one or more private inits; afterwards the public table is read through an
+    element, initialised explicitly, or used by a calculator.  Oracle as for the main model: canonical
+    observations and the canonical digest of the public table."""
+    def events(self):
+        if self._events is None:
+            base = dict((e.name, e) for e in LazyModel.events(LazyModel()))
+            evs = []
+            for g, m, fn in INITS:
+                evs.append(Event("privinit:%s" % g, PRIV_INIT % (m, fn), True, g))
+            for g, names in GROUPS:
+                n = "get:iso:neutron_activation" if g == "activation" else "get:el:%s" % names[0]
+                evs.append(Event(n, base[n].code, True, g))
+                evs.append(Event("init:%s" % g, base["init:%s" % g].code, True, g))
+            for n in ("calc:neutron_sld", "calc:xray_sld", "calc:volume", "calc:j0_Q", "calc:activation",
+                      "print:emission_table", "calc:f0"):
+                evs.append(Event(n, base[n].code, True, base[n].group))
+            self._events = evs
+        return self._events
+
+    def enabled(self, hist, ev):
+        # (both conditions are functions of the state: the key lists the groups initialised on table P)
+        if ev.name.startswith("privinit:"):
+            return ev.name not in hist
+        return any(h.startswith("privinit:") for h in hist)     # histories without a private init: main model
 
 
 MEMO_ATOMS = [("n", "pt.elements[0]"), ("N", "pt.N"), ("H", "pt.H"), ("D", "pt.D"), ("Dp", "pt.D.ion[1]"),
@@ -501,6 +568,13 @@ def run(ctx):
     mex = histmc.Explorer(memo, ctx.jobs, ctx.log).run(depth=(3 if ctx.quick else None), on_state=moracle)
     mex.oracle = moracle
     runs.append(("memo-depth3" if ctx.quick else "closure-memo", mex))
+    # private-table init as the first touch of a group
+    pmodel = PrivFirstModel()
+    pcan_obs, pcan_dig = canonical(pmodel)
+    poracle = Oracle(pmodel, acc, pcan_obs, pcan_dig)
+    pex = histmc.Explorer(pmodel, ctx.jobs, ctx.log).run(depth=(3 if ctx.quick else 4), on_state=poracle)
+    pex.oracle = poracle
+    runs.append(("private-first-depth%d" % (3 if ctx.quick else 4), pex))
     second = 0
     for label, ex in runs:
         if ex.nondeterminism:
@@ -530,6 +604,8 @@ def run(ctx):
             hs = hs[:8]
         if ex is mex:
             todo += [("MemoModel", h, mprobe, mcan_obs) for h in hs]
+        elif ex is pex:
+            todo += [("PrivFirstModel", h, [n for n in probe_names if n in pcan_obs], pcan_obs) for h in hs]
         else:
             todo += [("LazyModel", h, probe_names, can_obs) for h in hs]
     todo.append(("LazyModel", tuple(CANONICAL), probe_names, can_obs))
@@ -540,7 +616,7 @@ def run(ctx):
         return (factory, h, probes, got, want)
     from ..common import pmap
     res = pmap(validate, todo, ctx.jobs, "fresh-replay")
-    evs = dict((e.name, e) for e in list(model.events()) + list(memo.events()))
+    evs = dict((e.name, e) for e in list(model.events()) + list(memo.events()) + list(pmodel.events()))
     acc.traces = acc.transitions     # every explored transition was executed on the real interpreter (fork/replay)
     for factory, h, probes, got, want in res:
         acc.count("fresh_interpreter_replays")
@@ -560,11 +636,13 @@ def run(ctx):
 def replay(ctx, case, signature=None):
     hist = list(case["history"])
     is_memo = any(n.startswith("memo:") for n in hist + [case.get("event") or ""])
-    model = MemoModel() if is_memo else LazyModel()
+    is_priv = any(n.startswith("privinit:") for n in hist + [case.get("event") or ""])
+    model = MemoModel() if is_memo else (PrivFirstModel() if is_priv else LazyModel())
     can_obs, can_dig = canonical(model)
     evs = dict((e.name, e) for e in model.events())
     if case.get("event"):
-        got = histmc.fresh_replay("mc.props.c09", "MemoModel" if is_memo else "LazyModel", hist, [case["event"]])[-1]
+        got = histmc.fresh_replay("mc.props.c09", "MemoModel" if is_memo else ("PrivFirstModel" if is_priv else "LazyModel"),
+                                  hist, [case["event"]])[-1]
         want = can_obs[case["event"]]
         if got != want:
             ctx.acc.violation(signature or "replay", case, expected=want[:300], observed=got[:300],
